@@ -6287,341 +6287,1599 @@ impl TryRInto_SpanZoneOffset for ri128 {
     fn try_rinto(self, what: &'static str) -> (res: Result<ri32, Error>) { verif_try_rfrom_SpanZoneOffset_128(self) }
 }
 
-pub assume_specification[ i32::checked_shl ](x: i32, n: u32) -> (r: Option<i32>)
-    ensures n < 32 ==> r == Some(x << n), n >= 32 ==> r.is_none();
-// the pointer-sized word: jiff stores small kinds directly in the pointer bits via
-// without_provenance / addr (strict-provenance API; src/tz/timezone.rs mod polyfill).  Trusted model:
-// addr(without_provenance(a)) == a.
-#[verifier::external_body]
-#[derive(Clone, Copy)]
-pub struct Ptr { _p: () }
-impl Ptr {
-    pub uninterp spec fn a(&self) -> usize;
-    #[verifier::external_body]
-    pub fn addr(&self) -> (r: usize) ensures r == self.a() { unimplemented!() }
+// ---- include lib/rangeint_ext_tsarith.vrs ----
+// Hand-written extension of the rangeint model (lib/rangeint.vrs) for unit `tsarith`.
+// Same style as the generated file: release-mode meaning of src/util/rangeint.rs.  Functions WITH a body are verified here against the
+// generated model (no new trusted spec); an `external_body` spec would be an obligation for Kani on the real operation (there is none here).
+
+// ---- (T1) `T::MIN_SELF` / `T::MAX_SELF` (src/util/rangeint.rs: `pub(crate) const MIN_SELF: Self = Self::new_unchecked(MIN as $repr)`, same for MAX): the constant
+//           whose value is the alias's lower / upper bound.  Verified against the generated `T_MIN()` / `T_MAX()`.
+pub fn verif_UnixSeconds_MIN_SELF() -> (r: ri64) ensures r.val == UnixSeconds_MIN() { ri64 { val: -377705023201 } }
+pub fn verif_UnixSeconds_MAX_SELF() -> (r: ri64) ensures r.val == UnixSeconds_MAX() { ri64 { val: 253402207200 } }
+pub fn verif_FractionalNanosecond_MAX_SELF() -> (r: ri32) ensures r.val == FractionalNanosecond_MAX() { ri32 { val: 999999999 } }
+
+// ---- (T2) `x.without_bounds()` for x narrower than 128 bits is `ri64::rfrom(x)` = NoUnits (src/util/rangeint.rs:2147-2181);
+//           the generated model's `without_bounds` keeps the receiver's width, so the call is rewritten to this one (verified: a widening).
+//           Same as E4 of rangeint_ext_civiladd.vrs.
+impl ri32 {
+    pub fn verif_without_bounds64(self) -> (r: ri64) ensures r.val == self.val { ri64 { val: self.val as i64 } }
 }
-#[verifier::external_body]
-pub fn without_provenance(addr: usize) -> (r: Ptr) ensures r.a() == addr { unimplemented!() }
-impl Ptr {
-    // strict-provenance API (mod polyfill): map_addr(f) = with_addr(f(addr))
-    #[verifier::external_body]
-    pub fn map_addr<F: FnOnce(usize) -> usize>(&self, f: F) -> (r: Ptr)
-        requires f.requires((self.a(),)),
-        ensures f.ensures((self.a(),), r.a())
-    { unimplemented!() }
-    #[verifier::external_body]
-    pub fn cast<T>(&self) -> (r: TPtr<T>) ensures r.a() == self.a() { unimplemented!() }
+impl ri64 {
+    pub fn verif_without_bounds64(self) -> (r: ri64) ensures r.val == self.val { self }
 }
-#[verifier::external_body]
-#[verifier::reject_recursive_types(T)]
-pub struct TPtr<T> { _p: core::marker::PhantomData<T> }
-impl<T> TPtr<T> { pub uninterp spec fn a(&self) -> usize; }
-#[verifier::external_body] pub struct TzifOwned { _p: () }
-#[verifier::external_body] pub struct PosixTimeZoneOwned { _p: () }
-/// ghost protocol: `addr` is the data pointer of a live `Arc<T>` (as returned by Arc::into_raw)
-pub uninterp spec fn is_live_arc<T>(addr: usize) -> bool;
-pub struct Arc {}
-impl Arc {
-    // safety contract of std::sync::Arc::{increment,decrement}_strong_count: the pointer must have been obtained
-    // through Arc::<T>::into_raw (same T, hence also aligned for T) and the Arc must still be live
-    #[verifier::external_body]
-    pub fn increment_strong_count<T>(p: TPtr<T>) requires p.a() % 8 == 0, is_live_arc::<T>(p.a()) { unimplemented!() }
-    #[verifier::external_body]
-    pub fn decrement_strong_count<T>(p: TPtr<T>) requires p.a() % 8 == 0, is_live_arc::<T>(p.a()) { unimplemented!() }
+
+// ---- (T3) `-C` for a `Constant` (src/util/t.rs `impl Neg for Constant`: `Constant(-self.0)`).  Same as D3 of rangeint_ext_civildiff.vrs (verified body).
+impl NegSpecImpl for Constant {
+    open spec fn obeys_neg_spec() -> bool { true }
+    open spec fn neg_req(self) -> bool { self.0 > i64::MIN }
+    open spec fn neg_spec(self) -> Constant { Constant((-self.0) as i64) }
 }
-pub struct Repr { pub ptr: Ptr }
-impl Repr {
-    /// C20 representation invariant of a handle: the low three bits are one of the six tags; for the Arc-backed kinds the
-    /// remaining bits are the 8-aligned data pointer of a live Arc of the matching type (how Repr::arc_tzif / arc_posix build it)
-    pub open spec fn rwf(&self) -> bool {
-        let a = self.ptr.a();
-        let tag = a & 7usize;
-        &&& tag <= 5
-        &&& (tag == 4 ==> exists|base: usize| base % 8 == 0 && #[trigger] is_live_arc::<TzifOwned>(base) && a == base + 4)
-        &&& (tag == 5 ==> exists|base: usize| base % 8 == 0 && #[trigger] is_live_arc::<PosixTimeZoneOwned>(base) && a == base + 5)
+impl core::ops::Neg for Constant {
+    type Output = Constant;
+    fn neg(self) -> Constant { Constant(-self.0) }
+}
+
+// ---- include lib/tdiv.vrs ----
+pub proof fn lemma_tdiv(q: int, inc: int)
+    requires inc > 0,
+    ensures q == tdiv(q, inc) * inc + trem(q, inc), -inc < trem(q, inc) < inc,
+            q >= 0 ==> 0 <= trem(q, inc) <= q, q <= 0 ==> q <= trem(q, inc) <= 0,
+            -0x4000_0000_0000_0000_0000_0000 <= q <= 0x4000_0000_0000_0000_0000_0000 ==> -0x4000_0000_0000_0000_0000_0000 <= tdiv(q, inc) <= 0x4000_0000_0000_0000_0000_0000,
+{
+    if q >= 0 {
+        vstd::arithmetic::div_mod::lemma_fundamental_div_mod(q, inc);
+        vstd::arithmetic::div_mod::lemma_mod_bound(q, inc);
+        assert(inc * (q / inc) == (q / inc) * inc) by (nonlinear_arith);
+        assert(0 <= q / inc <= q) by (nonlinear_arith) requires q >= 0, inc > 0, q == inc * (q / inc) + q % inc, 0 <= q % inc < inc;
+    } else {
+        let p = -q;
+        vstd::arithmetic::div_mod::lemma_fundamental_div_mod(p, inc);
+        vstd::arithmetic::div_mod::lemma_mod_bound(p, inc);
+        assert(inc * (p / inc) == (p / inc) * inc) by (nonlinear_arith);
+        assert((-(p / inc)) * inc == -((p / inc) * inc)) by (nonlinear_arith);
+        assert(0 <= p / inc <= p) by (nonlinear_arith) requires p >= 0, inc > 0, p == inc * (p / inc) + p % inc, 0 <= p % inc < inc;
     }
 }
-pub proof fn lemma_untag(base: usize, tag: usize, a: usize)
-    requires base % 8 == 0, tag <= 7, a == base + tag,
-    ensures (a & !7usize) == base, (a & 7usize) == tag,
-{
-    assert(base % 8 == 0 && tag <= 7 ==> ((base | tag) & !7usize) == base && ((base | tag) & 7usize) == tag) by (bit_vector);
-    assert(base % 8 == 0 && tag <= 7 ==> (base | tag) == base + tag) by (bit_vector);
+
+// constants of src/util/t.rs (values re-checked against the real constants by Kani: c10_model::constants)
+pub const NANOS_PER_MICRO: Constant = Constant(1_000);
+pub const NANOS_PER_MILLI: Constant = Constant(1_000_000);
+pub const NANOS_PER_SECOND: Constant = Constant(1_000_000_000);
+pub const NANOS_PER_MINUTE: Constant = Constant(60_000_000_000);
+pub const NANOS_PER_HOUR: Constant = Constant(3_600_000_000_000);
+pub const NANOS_PER_CIVIL_DAY: Constant = Constant(86_400_000_000_000);
+pub const NANOS_PER_CIVIL_WEEK: Constant = Constant(604_800_000_000_000);
+pub const SECONDS_PER_MINUTE: Constant = Constant(60);
+pub const SECONDS_PER_HOUR: Constant = Constant(3_600);
+pub const SECONDS_PER_CIVIL_DAY: Constant = Constant(86_400);
+pub const SECONDS_PER_CIVIL_WEEK: Constant = Constant(604_800);
+
+pub trait VerifCtx: Sized { fn verif_with_context(self) -> Self; }
+impl<T> VerifCtx for Result<T, Error> {
+    #[verifier::external_body]
+    fn verif_with_context(self) -> (r: Self) ensures r.is_ok() == self.is_ok(), self.is_ok() ==> r.unwrap() == self.unwrap() { unimplemented!() }
 }
-impl Repr {
-    pub const BITS: usize = 0b111;
-    pub const UTC: usize = 1;
-    pub const UNKNOWN: usize = 2;
-    pub const FIXED: usize = 3;
-    pub const STATIC_TZIF: usize = 0;
-    pub const ARC_TZIF: usize = 4;
-    pub const ARC_POSIX: usize = 5;
+
+// derived `PartialOrd` on the fieldless enum Unit = order of discriminants (same trusted view as in rounders.vrs / span.vrs; Kani: c10_model::unit_order)
+pub open spec fn unit_rank(u: Unit) -> int {
+    match u { Unit::Year => 9, Unit::Month => 8, Unit::Week => 7, Unit::Day => 6, Unit::Hour => 5, Unit::Minute => 4,
+              Unit::Second => 3, Unit::Millisecond => 2, Unit::Microsecond => 1, Unit::Nanosecond => 0 }
 }
+impl PartialOrdSpecImpl for Unit {
+    open spec fn obeys_partial_cmp_spec() -> bool { true }
+    open spec fn partial_cmp_spec(&self, other: &Unit) -> Option<Ordering> { Some(int_cmp(unit_rank(*self), unit_rank(*other))) }
+}
+impl PartialOrd for Unit {
+    #[verifier::external_body]
+    fn partial_cmp(&self, other: &Unit) -> Option<Ordering> { unimplemented!() }
+}
+
+// ---- the abstract value of a span: ten signed integers (definitions of span.vrs / spanround.vrs, C12) ----------------------------------------
+pub struct SV { pub y: int, pub mo: int, pub w: int, pub d: int, pub h: int, pub mi: int, pub s: int, pub ms: int, pub us: int, pub ns: int }
+pub open spec fn iabs(a: int) -> int { if a < 0 { -a } else { a } }
+pub open spec fn isgn(a: int) -> int { if a < 0 { -1 } else if a > 0 { 1 } else { 0 } }
+pub open spec fn sv_zero() -> SV { SV { y: 0, mo: 0, w: 0, d: 0, h: 0, mi: 0, s: 0, ms: 0, us: 0, ns: 0 } }
+pub open spec fn sv_neg(a: SV) -> SV { SV { y: -a.y, mo: -a.mo, w: -a.w, d: -a.d, h: -a.h, mi: -a.mi, s: -a.s, ms: -a.ms, us: -a.us, ns: -a.ns } }
+pub open spec fn sv_nonneg(a: SV) -> bool { a.y >= 0 && a.mo >= 0 && a.w >= 0 && a.d >= 0 && a.h >= 0 && a.mi >= 0 && a.s >= 0 && a.ms >= 0 && a.us >= 0 && a.ns >= 0 }
+pub open spec fn sv_nonpos(a: SV) -> bool { a.y <= 0 && a.mo <= 0 && a.w <= 0 && a.d <= 0 && a.h <= 0 && a.mi <= 0 && a.s <= 0 && a.ms <= 0 && a.us <= 0 && a.ns <= 0 }
+/// "all its non-zero units always share one sign"
+pub open spec fn sv_one_sign(a: SV) -> bool { sv_nonneg(a) || sv_nonpos(a) }
+pub open spec fn sv_in_limits(a: SV) -> bool {
+    in_SpanYears(a.y) && in_SpanMonths(a.mo) && in_SpanWeeks(a.w) && in_SpanDays(a.d) && in_SpanHours(a.h) && in_SpanMinutes(a.mi)
+    && in_SpanSeconds(a.s) && in_SpanMilliseconds(a.ms) && in_SpanMicroseconds(a.us) && in_SpanNanoseconds(a.ns)
+}
+pub open spec fn in_limit(j: int, v: int) -> bool {
+    if j == 9 { in_SpanYears(v) } else if j == 8 { in_SpanMonths(v) } else if j == 7 { in_SpanWeeks(v) } else if j == 6 { in_SpanDays(v) }
+    else if j == 5 { in_SpanHours(v) } else if j == 4 { in_SpanMinutes(v) } else if j == 3 { in_SpanSeconds(v) } else if j == 2 { in_SpanMilliseconds(v) }
+    else if j == 1 { in_SpanMicroseconds(v) } else { in_SpanNanoseconds(v) }
+}
+pub open spec fn sv_ok(a: SV) -> bool { sv_one_sign(a) && sv_in_limits(a) }
+/// the largest unit with a non-zero value (rank), 0 for the zero span
+pub open spec fn sv_top(a: SV) -> int {
+    if a.y != 0 { 9 } else if a.mo != 0 { 8 } else if a.w != 0 { 7 } else if a.d != 0 { 6 } else if a.h != 0 { 5 } else if a.mi != 0 { 4 }
+    else if a.s != 0 { 3 } else if a.ms != 0 { 2 } else if a.us != 0 { 1 } else { 0 }
+}
+/// hours..nanoseconds in nanoseconds
+pub open spec fn time_ns(a: SV) -> int {
+    a.h * 3_600_000_000_000 + a.mi * 60_000_000_000 + a.s * 1_000_000_000 + a.ms * 1_000_000 + a.us * 1_000 + a.ns
+}
+/// the duration denoted by the uniform units: weeks = 7 x 24 h, days = 24 h; years and months do not count
+pub open spec fn inv_ns(a: SV) -> int { a.w * 604_800_000_000_000 + a.d * 86_400_000_000_000 + time_ns(a) }
+/// whole seconds of the uniform units (meaningful when ms == us == ns == 0)
+pub open spec fn inv_secs(a: SV) -> int { a.w * 604_800 + a.d * 86_400 + a.h * 3_600 + a.mi * 60 + a.s }
+pub open spec fn sv_cal_zero(a: SV) -> bool { a.y == 0 && a.mo == 0 && a.w == 0 && a.d == 0 }
+/// nanoseconds in one unit of rank j, ranks 0..=7
+pub open spec fn rank_ns(j: int) -> int {
+    if j == 0 { 1 } else if j == 1 { 1_000 } else if j == 2 { 1_000_000 } else if j == 3 { 1_000_000_000 } else if j == 4 { 60_000_000_000 }
+    else if j == 5 { 3_600_000_000_000 } else if j == 6 { 86_400_000_000_000 } else if j == 7 { 604_800_000_000_000 } else { 0 }
+}
+/// how many units of rank j make one unit of rank j + 1
+pub open spec fn carry(j: int) -> int { if j <= 2 { 1_000 } else if j <= 4 { 60 } else if j == 5 { 24 } else { 7 } }
+/// the largest unit Span::from_invariant_nanoseconds fills for `largest`: Year and Month are treated as Day
+pub open spec fn top_rank(largest: Unit) -> int { if unit_rank(largest) >= 8 { 6 } else { unit_rank(largest) } }
+/// n nanoseconds counted in whole units of rank j, truncated toward zero
+pub open spec fn quot(n: int, j: int) -> int { tdiv(n, rank_ns(j)) }
+/// n nanoseconds balanced up to the unit of rank `top`: the top unit takes the whole count, every lower unit the remainder below its carry limit
+pub open spec fn bal_unit(n: int, top: int, j: int) -> int {
+    if j > top { 0 } else if j == top { quot(n, j) } else { trem(quot(n, j), carry(j)) }
+}
+pub open spec fn bal(n: int, top: int) -> SV {
+    SV { y: 0, mo: 0, w: bal_unit(n, top, 7), d: bal_unit(n, top, 6), h: bal_unit(n, top, 5), mi: bal_unit(n, top, 4), s: bal_unit(n, top, 3),
+         ms: bal_unit(n, top, 2), us: bal_unit(n, top, 1), ns: bal_unit(n, top, 0) }
+}
+/// every unit below `top` is below its carry limit
+pub open spec fn carried(a: SV, top: int) -> bool {
+    &&& (0 < top ==> -1_000 < a.ns < 1_000) && (1 < top ==> -1_000 < a.us < 1_000) && (2 < top ==> -1_000 < a.ms < 1_000)
+    &&& (3 < top ==> -60 < a.s < 60) && (4 < top ==> -60 < a.mi < 60) && (5 < top ==> -24 < a.h < 24) && (6 < top ==> -7 < a.d < 7)
+}
+/// "a exactly denotes n nanoseconds, balanced up to the unit of rank top": conservation, no unit above top, carry limits, one sign (that of n)
+pub open spec fn balanced_as(a: SV, n: int, top: int) -> bool {
+    &&& inv_ns(a) == n
+    &&& a.y == 0 && a.mo == 0 && sv_top(a) <= top
+    &&& carried(a, top)
+    &&& (n >= 0 ==> sv_nonneg(a)) && (n <= 0 ==> sv_nonpos(a))
+}
+
+// ---- Span: opaque, view = ten signed integers.  Contracts of span.vrs (C12) and spanround.vrs (C11) ---------------------------------------
+#[verifier::external_body]
 #[derive(Clone, Copy)]
-pub struct Offset { pub s: i32 }
-impl Offset {
-    pub open spec fn wf(&self) -> bool { -93599 <= self.s <= 93599 }
-    pub fn seconds_ranged(self) -> (r: SpanZoneOffset) ensures r.val == self.s { ri32 { val: self.s } }
-    pub fn from_seconds_ranged(seconds: SpanZoneOffset) -> (r: Offset) ensures r.s == seconds.val { Offset { s: seconds.val } }
+pub struct Span { _p: () }
+pub uninterp spec fn span_view(s: Span) -> SV;
+/// type invariant of Span: one sign, every unit within its documented limit
+pub open spec fn span_wf(s: Span) -> bool { sv_ok(span_view(s)) }
+pub open spec fn span_time_ns(s: Span) -> int { time_ns(span_view(s)) }
+pub open spec fn span_cal_zero(s: Span) -> bool { sv_cal_zero(span_view(s)) }
+impl Span {
+    #[verifier::external_body]
+    pub fn new() -> (r: Span) ensures span_wf(r), span_view(r) == sv_zero() { unimplemented!() }
+    #[verifier::external_body]
+    pub fn get_weeks_ranged(&self) -> (r: SpanWeeks) requires span_wf(*self) ensures r.val == span_view(*self).w { unimplemented!() }
+    #[verifier::external_body]
+    pub fn get_days_ranged(&self) -> (r: SpanDays) requires span_wf(*self) ensures r.val == span_view(*self).d { unimplemented!() }
+    #[verifier::external_body]
+    pub fn get_hours_ranged(&self) -> (r: SpanHours) requires span_wf(*self) ensures r.val == span_view(*self).h { unimplemented!() }
+    #[verifier::external_body]
+    pub fn get_minutes_ranged(&self) -> (r: SpanMinutes) requires span_wf(*self) ensures r.val == span_view(*self).mi { unimplemented!() }
+    #[verifier::external_body]
+    pub fn get_seconds_ranged(&self) -> (r: SpanSeconds) requires span_wf(*self) ensures r.val == span_view(*self).s { unimplemented!() }
+    #[verifier::external_body]
+    pub fn get_milliseconds_ranged(&self) -> (r: SpanMilliseconds) requires span_wf(*self) ensures r.val == span_view(*self).ms { unimplemented!() }
+    #[verifier::external_body]
+    pub fn get_microseconds_ranged(&self) -> (r: SpanMicroseconds) requires span_wf(*self) ensures r.val == span_view(*self).us { unimplemented!() }
+    #[verifier::external_body]
+    pub fn get_nanoseconds_ranged(&self) -> (r: SpanNanoseconds) requires span_wf(*self) ensures r.val == span_view(*self).ns { unimplemented!() }
+    /// `self.milliseconds != 0 || self.microseconds != 0 || self.nanoseconds != 0` (reads the private fields)
+    #[verifier::external_body]
+    pub fn has_fractional_seconds(&self) -> (r: bool) requires span_wf(*self)
+        ensures r == (span_view(*self).ms != 0 || span_view(*self).us != 0 || span_view(*self).ns != 0) { unimplemented!() }
+    /// `self.sign == 0` (span.vrs: the sign is 0 iff every unit is 0)
+    #[verifier::external_body]
+    pub fn is_zero(self) -> (r: bool) requires span_wf(self) ensures r == (span_view(self) == sv_zero()) { unimplemented!() }
+    /// Some(error) iff a calendar unit (years, months, weeks, days) is non-zero
+    #[verifier::external_body]
+    pub fn smallest_non_time_non_zero_unit_error(&self) -> (r: Option<Error>) requires span_wf(*self) ensures r.is_some() <==> !span_cal_zero(*self) { unimplemented!() }
+    /// span.vrs: Span::negate
+    #[verifier::external_body]
+    pub fn negate(self) -> (r: Span) requires span_wf(self) ensures span_wf(r), span_view(r) == sv_neg(span_view(self)) { unimplemented!() }
+    /// spanround.vrs (C11): the contract proved there for the real function
+    #[verifier::external_body]
+    pub fn from_invariant_nanoseconds(largest: Unit, nanos: NoUnits128) -> (r: Result<Span, Error>)
+        ensures
+            r.is_ok() <==> in_limit(top_rank(largest), quot(nanos.val as int, top_rank(largest))),
+            r.is_ok() ==> span_wf(r.unwrap()) && span_view(r.unwrap()) == bal(nanos.val as int, top_rank(largest)),
+            r.is_ok() ==> balanced_as(span_view(r.unwrap()), nanos.val as int, top_rank(largest)),
+    { unimplemented!() }
 }
-/// C20: tags of the pointer-free kinds are pairwise distinct and differ from the pointer tags
-pub proof fn lemma_tags_distinct()
-    ensures Repr::UTC != Repr::UNKNOWN, Repr::UTC != Repr::FIXED, Repr::UNKNOWN != Repr::FIXED,
-            Repr::UTC != Repr::STATIC_TZIF, Repr::UTC != Repr::ARC_TZIF, Repr::UTC != Repr::ARC_POSIX,
-            Repr::UNKNOWN != Repr::STATIC_TZIF, Repr::UNKNOWN != Repr::ARC_TZIF, Repr::UNKNOWN != Repr::ARC_POSIX,
-            Repr::FIXED != Repr::STATIC_TZIF, Repr::FIXED != Repr::ARC_TZIF, Repr::FIXED != Repr::ARC_POSIX,
-            Repr::STATIC_TZIF != Repr::ARC_TZIF, Repr::STATIC_TZIF != Repr::ARC_POSIX, Repr::ARC_TZIF != Repr::ARC_POSIX,
-            Repr::UTC <= Repr::BITS, Repr::UNKNOWN <= Repr::BITS, Repr::FIXED <= Repr::BITS, Repr::ARC_TZIF <= Repr::BITS, Repr::ARC_POSIX <= Repr::BITS,
-{}
-/// the encoding of a fixed offset into the pointer word
-pub open spec fn enc_fixed(s: i32) -> usize { (((s << 4u32) as usize) | 3usize) }
-pub proof fn lemma_fixed_roundtrip(s: i32)
-    requires -93599 <= s <= 93599,
-    ensures ((enc_fixed(s) as i32) >> 4u32) == s, (enc_fixed(s) & 7usize) == 3usize,
+/// the uniform units of a well-formed span denote less than 2^83 ns
+#[verifier::spinoff_prover]
+pub proof fn lemma_inv_bound(a: SV)
+    requires sv_ok(a),
+    ensures -0x8_0000_0000_0000_0000_0000 <= inv_ns(a) <= 0x8_0000_0000_0000_0000_0000, -0x8_0000_0000_0000_0000_0000 <= time_ns(a) <= 0x8_0000_0000_0000_0000_0000,
+            sv_nonneg(a) ==> inv_ns(a) >= 0 && time_ns(a) >= 0, sv_nonpos(a) ==> inv_ns(a) <= 0 && time_ns(a) <= 0,
+            sv_cal_zero(a) ==> inv_ns(a) == time_ns(a),
+            a.ms == 0 && a.us == 0 && a.ns == 0 ==> inv_ns(a) == inv_secs(a) * 1_000_000_000,
+            -0x1000_0000_0000 <= inv_secs(a) <= 0x1000_0000_0000,
 {
-    assert(-93599 <= s <= 93599 ==> ((((((s << 4u32) as usize) | 3usize)) as i32) >> 4u32) == s) by (bit_vector);
-    assert(((((s << 4u32) as usize) | 3usize) & 7usize) == 3usize) by (bit_vector);
 }
+
+// ---- SignedDuration: the real struct; the integer core is unit `sdur` (C12), whose contracts are assumed for the three callees used here ----
+impl SignedDuration {
+    /// the denoted number of nanoseconds (mathematical integer)
+    pub open spec fn tot(self) -> int { self.secs as int * 1_000_000_000 + self.nanos as int }
+    /// representation invariant: |nanos| < 1s and seconds / nanoseconds never of opposite sign
+    pub open spec fn wf(self) -> bool {
+        -999_999_999 <= self.nanos <= 999_999_999
+        && !(self.secs > 0 && self.nanos < 0) && !(self.secs < 0 && self.nanos > 0)
+    }
+    /// sdur.vrs: SignedDuration::checked_add
+    #[verifier::external_body]
+    pub fn checked_add(self, rhs: SignedDuration) -> (r: Option<SignedDuration>)
+        requires self.wf(), rhs.wf(),
+        ensures r is Some ==> r->0.wf() && r->0.tot() == self.tot() + rhs.tot(),
+                r is None <==> !representable(self.tot() + rhs.tot()),
+    { unimplemented!() }
+    /// sdur.vrs: SignedDuration::from_nanos
+    #[verifier::external_body]
+    pub fn from_nanos(nanos: i64) -> (r: SignedDuration) ensures r.wf(), r.tot() == nanos { unimplemented!() }
+}
+/// the nanosecond counts some SignedDuration can denote
+pub open spec fn representable(t: int) -> bool {
+    i64::MIN as int * 1_000_000_000 - 999_999_999 <= t <= i64::MAX as int * 1_000_000_000 + 999_999_999
+}
+/// the unique well-formed duration denoting t (for representable t)
+pub open spec fn of_tot(t: int) -> SignedDuration {
+    SignedDuration { secs: tdiv(t, 1_000_000_000) as i64, nanos: trem(t, 1_000_000_000) as i32 }
+}
+pub proof fn lemma_of_tot(t: int)
+    requires representable(t),
+    ensures of_tot(t).wf(), of_tot(t).tot() == t,
+{
+    lemma_tdiv(t, 1_000_000_000);
+}
+// sdur.vrs: `a - b` is exact and panic-free whenever the exact result is representable (Sub::sub = checked_sub().expect())
+impl vstd::std_specs::ops::SubSpecImpl for SignedDuration {
+    open spec fn obeys_sub_spec() -> bool { true }
+    open spec fn sub_req(self, rhs: SignedDuration) -> bool { self.wf() && rhs.wf() && representable(self.tot() - rhs.tot()) }
+    open spec fn sub_spec(self, rhs: SignedDuration) -> SignedDuration { of_tot(self.tot() - rhs.tot()) }
+}
+impl core::ops::Sub for SignedDuration {
+    type Output = SignedDuration;
+    #[verifier::external_body]
+    fn sub(self, rhs: SignedDuration) -> SignedDuration { unimplemented!() }
+}
+
+// ---- Timestamp: the real struct { second: UnixSeconds, nanosecond: FractionalNanosecond } ----
+/// Timestamp::MIN ..= Timestamp::MAX in nanoseconds: -377705023201 s ..= 253402207200.999999999 s
+pub open spec fn ts_in_range(n: int) -> bool { -377705023201 * 1_000_000_000 <= n <= 253402207200 * 1_000_000_000 + 999_999_999 }
+impl Timestamp {
+    /// the instant in nanoseconds since the Unix epoch
+    pub open spec fn ns(&self) -> int { self.second.val as int * 1_000_000_000 + self.nanosecond.val as int }
+    /// type invariant: |nanosecond| < 10^9, seconds and nanoseconds never of opposite sign, within Timestamp::MIN..=Timestamp::MAX
+    pub open spec fn wf(&self) -> bool {
+        &&& in_UnixSeconds(self.second.val as int) && -999_999_999 <= self.nanosecond.val <= 999_999_999
+        &&& !(self.second.val > 0 && self.nanosecond.val < 0) && !(self.second.val < 0 && self.nanosecond.val > 0)
+        &&& !(self.second.val == -377705023201 && self.nanosecond.val < 0)
+    }
+}
+/// a well-formed timestamp is inside Timestamp::MIN..=Timestamp::MAX, and (second, nanosecond) is the truncated split of its nanosecond count
+pub proof fn lemma_ts_wf(t: Timestamp)
+    requires t.wf(),
+    ensures ts_in_range(t.ns()), in_UnixNanoseconds(t.ns()),
+{
+}
+
+/// derived `Ord::max` on Unit (`a.max(b)`): the one of larger rank (same trusted view as in civildiff.vrs)
+#[verifier::external_body]
+pub fn verif_unit_max(a: Unit, b: Unit) -> (r: Unit) ensures r == (if unit_rank(b) >= unit_rank(a) { b } else { a }) { unimplemented!() }
+
+// ---- the rounding configuration: opaque (as in civildiff.vrs).  Only `largest` (explicit or defaulted) matters on the rounding-free path.
+#[verifier::external_body]
+#[derive(Clone, Copy)]
+pub struct SpanRound { _p: () }
+impl SpanRound {
+    pub uninterp spec fn largest(&self) -> Option<Unit>;
+    pub uninterp spec fn smallest(&self) -> Unit;
+    #[verifier::external_body]
+    pub fn get_largest(&self) -> (r: Option<Unit>) ensures r == self.largest() { unimplemented!() }
+    #[verifier::external_body]
+    pub fn get_smallest(&self) -> (r: Unit) ensures r == self.smallest() { unimplemented!() }
+    /// `smallest > Nanosecond || increment > 1`: rounding could change a span (then until/since go through Span::round: C10/C11, not here)
+    pub uninterp spec fn may_round(&self) -> bool;
+    #[verifier::external_body]
+    pub fn rounding_may_change_span_ignore_largest(&self) -> (r: bool) ensures r == self.may_round() { unimplemented!() }
+}
+impl Span {
+    /// Span::round (C10/C11): only used on the rounding path (no contract)
+    #[verifier::external_body]
+    pub fn round(self, options: SpanRound) -> (r: Result<Span, Error>) { unimplemented!() }
+}
+/// `largest` as TimestampDifference::until_with_largest_unit computes it: the configured one, else max(smallest, Second)
+pub open spec fn ts_default_largest(r: SpanRound) -> Unit { if unit_rank(r.smallest()) <= 3 { Unit::Second } else { r.smallest() } }
+pub open spec fn ts_largest(r: SpanRound) -> Unit { match r.largest() { Some(u) => u, None => ts_default_largest(r) } }
+/// `largest` as TimeDifference::until_with_largest_unit computes it: the configured one, else Hour
+pub open spec fn time_largest(r: SpanRound) -> Unit { match r.largest() { Some(u) => u, None => Unit::Hour } }
+
+// ---- C07 for elapsed-time differences: the result s of a.until(largest, b), d = b - a in nanoseconds, top = rank of largest (<= Hour) ----
+/// REVERSIBLE: s has no calendar unit and its time units denote exactly d (so a + s == b by the contract of checked_add_span);
+/// NO UNIT ABOVE THE LARGEST; BALANCED: every unit below the largest is below its carry limit; SIGN: every non-zero unit has the sign of d
+pub open spec fn c07_elapsed(a: SV, d: int, top: int) -> bool {
+    &&& sv_cal_zero(a) && time_ns(a) == d && inv_ns(a) == d
+    &&& sv_top(a) <= top
+    &&& carried(a, top)
+    &&& (d >= 0 ==> sv_nonneg(a)) && (d <= 0 ==> sv_nonpos(a))
+}
+/// when a.until(largest, b) is an error for timestamps: the largest unit is Day or above -- or (DEVIATION from the ideal contract, see below) it is
+/// Nanosecond and the distance does not fit the nanoseconds limit of a span (|d| > i64::MAX)
+pub open spec fn ts_diff_err(d: int, largest: Unit) -> bool { unit_rank(largest) >= 6 || (largest == Unit::Nanosecond && !in_SpanNanoseconds(d)) }
+/// the distance of two timestamps, counted in any unit from microseconds to hours, is within that unit's span limit
+#[verifier::spinoff_prover]
+pub proof fn lemma_quot_limits(d: int, j: int)
+    requires 0 <= j <= 5, -631107230401_999_999_999 <= d <= 631107230401_999_999_999,
+    ensures j >= 1 ==> in_limit(j, quot(d, j)), quot(d, 0) == d,
+{
+    lemma_tdiv(d, rank_ns(j));
+    lemma_tdiv(d, 1);
+}
+/// the distance of two times of day, counted in any unit from nanoseconds to hours, is within that unit's span limit
+#[verifier::spinoff_prover]
+pub proof fn lemma_quot_limits_day(d: int, j: int)
+    requires 0 <= j <= 5, -86_400_000_000_000 < d < 86_400_000_000_000,
+    ensures in_limit(j, quot(d, j)),
+{
+    lemma_tdiv(d, rank_ns(j));
+}
+/// one step of the chain of truncating divisions: tdiv(tdiv(n, a), b) == tdiv(n, a * b)   (spanround.vrs)
+pub proof fn lemma_tdiv_step(n: int, a: int, b: int)
+    requires a > 0, b > 0,
+    ensures tdiv(tdiv(n, a), b) == tdiv(n, a * b), a * b > 0,
+{
+    assert(a * b > 0) by (nonlinear_arith) requires a > 0, b > 0;
+    if n >= 0 {
+        vstd::arithmetic::div_mod::lemma_div_denominator(n, a, b);
+        vstd::arithmetic::div_mod::lemma_div_pos_is_pos(n, a);
+    } else {
+        vstd::arithmetic::div_mod::lemma_div_denominator(-n, a, b);
+        vstd::arithmetic::div_mod::lemma_div_pos_is_pos(-n, a);
+    }
+}
+#[verifier::spinoff_prover]
+pub proof fn lemma_quot_chain(n: int)
+    ensures quot(n, 0) == n, quot(n, 1) == tdiv(n, 1_000), quot(n, 2) == tdiv(quot(n, 1), 1_000), quot(n, 3) == tdiv(quot(n, 2), 1_000), quot(n, 4) == tdiv(quot(n, 3), 60),
+            quot(n, 5) == tdiv(quot(n, 4), 60), quot(n, 6) == tdiv(quot(n, 5), 24), quot(n, 7) == tdiv(quot(n, 6), 7),
+{
+    lemma_tdiv_step(n, 1_000, 1_000); lemma_tdiv_step(n, 1_000_000, 1_000); lemma_tdiv_step(n, 1_000_000_000, 60); lemma_tdiv_step(n, 60_000_000_000, 60);
+    lemma_tdiv_step(n, 3_600_000_000_000, 24); lemma_tdiv_step(n, 86_400_000_000_000, 7);
+}
+/// C07 for the specified result: the balanced form of d up to a unit of Hour or below is reversible, has nothing above the largest unit, is balanced and of one sign
+#[verifier::spinoff_prover]
+pub proof fn lemma_c07(d: int, top: int)
+    requires 0 <= top <= 5,
+    ensures c07_elapsed(bal(d, top), d, top), balanced_as(bal(d, top), d, top),
+{
+    lemma_quot_chain(d);
+    lemma_tdiv(d, 1_000); lemma_tdiv(quot(d, 1), 1_000); lemma_tdiv(quot(d, 2), 1_000); lemma_tdiv(quot(d, 3), 60); lemma_tdiv(quot(d, 4), 60); lemma_tdiv(quot(d, 5), 24); lemma_tdiv(quot(d, 6), 7);
+}
+/// the balanced form of zero is the zero span
+pub proof fn lemma_bal_zero(top: int)
+    requires top >= 0,
+    ensures bal(0, top) == sv_zero(), c07_elapsed(sv_zero(), 0, top),
+{
+}
+/// negation keeps C07
+pub proof fn lemma_c07_neg(a: SV, d: int, top: int)
+    requires c07_elapsed(a, d, top),
+    ensures c07_elapsed(sv_neg(a), -d, top),
+{
+}
+
+// ---- civil::Time: opaque, view = nanoseconds since midnight (as in rounders.vrs / civiladd.vrs; accessor facts: Kani group c10_views / itime.vrs) ----
+#[verifier::external_body]
+#[derive(Clone, Copy)]
+pub struct Time { _p: () }
+impl Time {
+    pub uninterp spec fn nod(&self) -> int;
+    pub open spec fn wf(&self) -> bool { 0 <= self.nod() < 86_400_000_000_000 }
+    #[verifier::external_body]
+    pub fn to_nanosecond(&self) -> (r: CivilDayNanosecond) requires self.wf() ensures r.val == self.nod() { unimplemented!() }
+}
+// derived `PartialEq` on Time { hour, minute, second, subsec_nanosecond }: fieldwise, i.e. (for well-formed times) equality of the nanosecond of the day
+impl vstd::std_specs::cmp::PartialEqSpecImpl for Time {
+    open spec fn obeys_eq_spec() -> bool { true }
+    open spec fn eq_spec(&self, other: &Time) -> bool { self.nod() == other.nod() }
+}
+impl PartialEq for Time {
+    #[verifier::external_body]
+    fn eq(&self, other: &Time) -> bool { unimplemented!() }
+}
+
+// ---- std::time::Duration (`UnsignedDuration` in jiff): opaque; view = (whole seconds, sub-second nanoseconds) -- trusted view of std
+use core::time::Duration as UnsignedDuration;
+pub uninterp spec fn udur_secs(d: UnsignedDuration) -> int;
+pub uninterp spec fn udur_nanos(d: UnsignedDuration) -> int;
+pub open spec fn udur_ns(d: UnsignedDuration) -> int { udur_secs(d) * 1_000_000_000 + udur_nanos(d) }
+pub open spec fn udur_wf(d: UnsignedDuration) -> bool { 0 <= udur_secs(d) <= u64::MAX && 0 <= udur_nanos(d) <= 999_999_999 }
+pub assume_specification[ UnsignedDuration::as_secs ](d: &UnsignedDuration) -> (r: u64) ensures r == udur_secs(*d);
+pub assume_specification[ UnsignedDuration::subsec_nanos ](d: &UnsignedDuration) -> (r: u32) ensures r == udur_nanos(*d), r <= 999_999_999;
+pub assume_specification[ UnsignedDuration::new ](secs: u64, nanos: u32) -> (r: UnsignedDuration)
+    requires secs as int + nanos as int / 1_000_000_000 <= u64::MAX,    // std: panics iff the carry overflows the seconds
+    ensures udur_secs(r) == secs as int + nanos as int / 1_000_000_000, udur_nanos(r) == nanos as int % 1_000_000_000, udur_wf(r);
+pub assume_specification<T, E, F: FnOnce(E) -> T>[ Result::<T, E>::unwrap_or_else ](r: Result<T, E>, f: F) -> (res: T)
+    requires r is Err ==> f.requires((r->Err_0,)),
+    ensures r is Ok ==> res == r->Ok_0, r is Err ==> f.ensures((r->Err_0,), res);
+pub assume_specification<T, E, U, F: FnOnce(T) -> Result<U, E>>[ Result::<T, E>::and_then ](r: Result<T, E>, f: F) -> (res: Result<U, E>)
+    requires r is Ok ==> f.requires((r->Ok_0,)),
+    ensures r is Err ==> res is Err, r is Ok ==> f.ensures((r->Ok_0,), res);
+#[verifier::external_body]
+pub fn verif_i32_try_from_u32(x: u32) -> (r: i32) requires x <= i32::MAX ensures r == x { unimplemented!() }
+/// `impl TryFrom<std::time::Duration> for SignedDuration`: Ok iff the whole seconds fit an i64; then (secs, nanos) are taken over as they are
+#[verifier::external_body]
+pub fn verif_sdur_try_from_udur(d: UnsignedDuration) -> (r: Result<SignedDuration, Error>)
+    ensures udur_wf(d), r.is_ok() <==> udur_secs(d) <= i64::MAX, r.is_ok() ==> r.unwrap().secs == udur_secs(d) && r.unwrap().nanos == udur_nanos(d),
+{ unimplemented!() }
+impl SignedDuration {
+    /// sdur.vrs: SignedDuration::checked_neg
+    #[verifier::external_body]
+    pub fn checked_neg(self) -> (r: Option<SignedDuration>)
+        requires self.wf(),
+        ensures r is Some ==> r->0.wf() && r->0.tot() == -self.tot(), r is None <==> self.secs == i64::MIN,
+    { unimplemented!() }
+}
+// sdur.vrs: `-a` is exact and panic-free whenever the exact result is representable (Neg::neg = checked_neg().expect())
+impl vstd::std_specs::ops::NegSpecImpl for SignedDuration {
+    open spec fn obeys_neg_spec() -> bool { true }
+    open spec fn neg_req(self) -> bool { self.wf() && representable(-self.tot()) }
+    open spec fn neg_spec(self) -> SignedDuration { of_tot(-self.tot()) }
+}
+impl core::ops::Neg for SignedDuration {
+    type Output = SignedDuration;
+    #[verifier::external_body]
+    fn neg(self) -> SignedDuration { unimplemented!() }
+}
+impl Span {
+    /// `self.get_sign_ranged() < 0` (span.vrs: the sign is -1 iff some unit is negative)
+    #[verifier::external_body]
+    pub fn is_negative(self) -> (r: bool) requires span_wf(self) ensures r == !sv_nonneg(span_view(self)) { unimplemented!() }
+}
+/// negating a well-formed span: still well-formed (the limits are symmetric), the same calendar-zero status, the opposite duration
+pub proof fn lemma_sv_neg(a: SV)
+    requires sv_ok(a),
+    ensures sv_ok(sv_neg(a)), sv_cal_zero(sv_neg(a)) == sv_cal_zero(a), time_ns(sv_neg(a)) == -time_ns(a), inv_ns(sv_neg(a)) == -inv_ns(a),
+{
+}
+
+// ---- C06: what `timestamp + duration` and `timestamp - duration` mean, for the three kinds of duration (duration::Duration) ----
+pub open spec fn dur_wf(d: Duration) -> bool {
+    match d { Duration::Span(s) => span_wf(s), Duration::Signed(x) => x.wf(), Duration::Unsigned(u) => udur_wf(u) }
+}
+pub open spec fn sdur_wf(d: SDuration) -> bool { match d { SDuration::Span(s) => span_wf(s), SDuration::Absolute(x) => x.wf() } }
+/// the signed number of nanoseconds a duration moves an instant by (a span: its time units)
+pub open spec fn dur_ns(d: Duration) -> int {
+    match d { Duration::Span(s) => span_time_ns(s), Duration::Signed(x) => x.tot(), Duration::Unsigned(u) => udur_ns(u) }
+}
+pub open spec fn sdur_ns(d: SDuration) -> int { match d { SDuration::Span(s) => span_time_ns(s), SDuration::Absolute(x) => x.tot() } }
+/// a span with a non-zero calendar unit cannot be added to a timestamp
+pub open spec fn dur_addable(d: Duration) -> bool { match d { Duration::Span(s) => span_cal_zero(s), _ => true } }
+pub open spec fn sdur_addable(d: SDuration) -> bool { match d { SDuration::Span(s) => span_cal_zero(s), _ => true } }
+pub open spec fn ts_MIN_ns() -> int { -377705023201 * 1_000_000_000 }
+pub open spec fn ts_MAX_ns() -> int { 253402207200int * 1_000_000_000 + 999_999_999 }
+/// saturation of an instant to Timestamp::MIN..=Timestamp::MAX
+pub open spec fn ts_clamp(n: int) -> int { if n < ts_MIN_ns() { ts_MIN_ns() } else if n > ts_MAX_ns() { ts_MAX_ns() } else { n } }
 
 // ==== extracted from /repo ====
-impl Repr {
-// @fn Repr::utc @src src/tz/timezone.rs:2048
-#[verifier::spinoff_prover]
-
-        pub fn utc() -> (r: Repr)
-    ensures
-        r.ptr.a() & Repr::BITS == Repr::UTC,
-{
-            let ptr = without_provenance(Repr::UTC);
-            assert(1usize & 7usize == 1usize) by (bit_vector);
-
-            Repr { ptr }
-        }
+#[derive(Clone, Copy, Debug, Eq, PartialEq, Structural)]
+pub enum Unit {
+    
+    
+    Year = 9,
+    
+    
+    Month = 8,
+    
+    Week = 7,
+    
+    
+    Day = 6,
+    
+    Hour = 5,
+    
+    
+    Minute = 4,
+    
+    Second = 3,
+    
+    Millisecond = 2,
+    
+    Microsecond = 1,
+    
+    Nanosecond = 0,
 }
 
-impl Repr {
-// @fn Repr::unknown @src src/tz/timezone.rs:2055
+impl Span {
+// @fn Span::to_invariant_nanoseconds @src src/span.rs:2900
 #[verifier::spinoff_prover]
 
-        pub fn unknown() -> (r: Repr)
-    ensures
-        r.ptr.a() & Repr::BITS == Repr::UNKNOWN,
-{
-            let ptr = without_provenance(Repr::UNKNOWN);
-            assert(2usize & 7usize == 2usize) by (bit_vector);
-
-            Repr { ptr }
-        }
-}
-
-impl Repr {
-// @fn Repr::fixed @src src/tz/timezone.rs:2062
-#[verifier::spinoff_prover]
-
-        pub fn fixed(offset: Offset) -> (r: Repr)
+    pub fn to_invariant_nanoseconds(&self) -> (r: NoUnits128)
     requires
-        offset.wf(),
+        span_wf(*self),
     ensures
-        r.ptr.a() == enc_fixed(offset.s), r.ptr.a() & Repr::BITS == Repr::FIXED,
+        r.val == inv_ns(span_view(*self)),
 {
-            proof { lemma_fixed_roundtrip(offset.s); }
-
-            let seconds = offset.seconds_ranged().get_unchecked();
-            
-            let shifted = (seconds.checked_shl(4)).unwrap();
-            assert(usize::MAX >= 4_294_967_295) by { vstd::layout::unsigned_int_max_values(); }
-            
-            let ptr = without_provenance((shifted as usize) | Repr::FIXED);
-            Repr { ptr }
-        }
+        let mut nanos = NoUnits128::rfrom(self.get_nanoseconds_ranged());
+        nanos += NoUnits128::rfrom(self.get_microseconds_ranged())
+            * NANOS_PER_MICRO;
+        nanos += NoUnits128::rfrom(self.get_milliseconds_ranged())
+            * NANOS_PER_MILLI;
+        nanos +=
+            NoUnits128::rfrom(self.get_seconds_ranged()) * NANOS_PER_SECOND;
+        nanos +=
+            NoUnits128::rfrom(self.get_minutes_ranged()) * NANOS_PER_MINUTE;
+        nanos +=
+            NoUnits128::rfrom(self.get_hours_ranged()) * NANOS_PER_HOUR;
+        nanos +=
+            NoUnits128::rfrom(self.get_days_ranged()) * NANOS_PER_CIVIL_DAY;
+        nanos += NoUnits128::rfrom(self.get_weeks_ranged())
+            * NANOS_PER_CIVIL_WEEK;
+        nanos
+    }
 }
 
-impl Repr {
-// @fn Repr::get_fixed @src src/tz/timezone.rs:2132
+impl Span {
+// @fn Span::to_invariant_seconds @src src/span.rs:2933
 #[verifier::spinoff_prover]
 
-        pub fn get_fixed(&self) -> (r: Offset)
+    pub fn to_invariant_seconds(&self) -> (r: Option<NoUnits>)
     requires
-        exists|s: i32| -93599 <= s <= 93599 && self.ptr.a() == #[trigger] enc_fixed(s),
+        span_wf(*self),
     ensures
-        forall|s: i32| -93599 <= s <= 93599 && self.ptr.a() == #[trigger] enc_fixed(s) ==> r.s == s, r.wf(),
+        r.is_some() <==> span_view(*self).ms == 0 && span_view(*self).us == 0 && span_view(*self).ns == 0,
+    r.is_some() ==> r.unwrap().val == inv_secs(span_view(*self)) && r.unwrap().val * 1_000_000_000 == inv_ns(span_view(*self)),
 {
-            proof {
-                let s = choose|s: i32| -93599 <= s <= 93599 && self.ptr.a() == #[trigger] enc_fixed(s);
-                lemma_fixed_roundtrip(s);
-                assert forall|s2: i32| -93599 <= s2 <= 93599 && self.ptr.a() == #[trigger] enc_fixed(s2) implies s2 == s by { lemma_fixed_roundtrip(s2); }
-            }
-
-            
-            let addr = self.ptr.addr();
-            
-            
-            let seconds = SpanZoneOffset::new_unchecked((addr as i32) >> 4);
-            Offset::from_seconds_ranged(seconds)
+        if self.has_fractional_seconds() {
+            return None;
         }
+        let mut seconds = NoUnits::rfrom(self.get_seconds_ranged());
+        seconds +=
+            NoUnits::rfrom(self.get_minutes_ranged()) * SECONDS_PER_MINUTE;
+        seconds +=
+            NoUnits::rfrom(self.get_hours_ranged()) * SECONDS_PER_HOUR;
+        seconds +=
+            NoUnits::rfrom(self.get_days_ranged()) * SECONDS_PER_CIVIL_DAY;
+        seconds += NoUnits::rfrom(self.get_weeks_ranged())
+            * SECONDS_PER_CIVIL_WEEK;
+        Some(seconds)
+    }
 }
 
-impl Repr {
-// @fn Repr::is_unknown @src src/tz/timezone.rs:2144
-#[verifier::spinoff_prover]
-
-        pub fn is_unknown(&self) -> (r: bool)
-    ensures
-        r == (self.ptr.a() & Repr::BITS == Repr::UNKNOWN),
-{
-            self.tag() == Repr::UNKNOWN
-        }
+#[derive(Clone, Copy, PartialEq, Eq, Structural)]
+pub struct SignedDuration {
+    pub secs: i64,
+    pub nanos: i32,
 }
 
-impl Repr {
-// @fn Repr::tag @src src/tz/timezone.rs:2222
-#[verifier::spinoff_prover]
-
-        pub fn tag(&self) -> (r: usize)
-    ensures
-        r == self.ptr.a() & Repr::BITS,
-{
-            
-            {
-                self.ptr.addr() & Repr::BITS
-            }
-        }
+impl SignedDuration {
+    pub open spec fn cmp_spec(self, o: SignedDuration) -> int {
+        if self.secs < o.secs { -1int } else if self.secs > o.secs { 1int } else { if self.nanos < o.nanos { -1int } else if self.nanos > o.nanos { 1int } else { 0int } }
+    }
+    pub fn cmp_exec(&self, o: &SignedDuration) -> (r: i8) ensures r as int == self.cmp_spec(*o), -1 <= r <= 1 {
+        if self.secs < o.secs { -1 } else if self.secs > o.secs { 1 } else { if self.nanos < o.nanos { -1 } else if self.nanos > o.nanos { 1 } else { 0 } }
+    }
+}
+impl vstd::std_specs::cmp::PartialOrdSpecImpl for SignedDuration {
+    open spec fn obeys_partial_cmp_spec() -> bool { true }
+    open spec fn partial_cmp_spec(&self, other: &SignedDuration) -> Option<core::cmp::Ordering> {
+        Some(if self.cmp_spec(*other) < 0 { core::cmp::Ordering::Less } else if self.cmp_spec(*other) > 0 { core::cmp::Ordering::Greater } else { core::cmp::Ordering::Equal })
+    }
+}
+impl core::cmp::PartialOrd for SignedDuration {
+    fn partial_cmp(&self, other: &SignedDuration) -> (r: Option<core::cmp::Ordering>) {
+        let c = self.cmp_exec(other);
+        if c < 0 { Some(core::cmp::Ordering::Less) } else if c > 0 { Some(core::cmp::Ordering::Greater) } else { Some(core::cmp::Ordering::Equal) }
+    }
 }
 
-impl Repr {
-// @fn <Repr as Clone>::clone @src src/tz/timezone.rs:2283
+impl SignedDuration {
+// @fn SignedDuration::new_unchecked @src src/signed_duration.rs:474
 #[verifier::spinoff_prover]
 
-        pub fn clone(&self) -> (r: Repr)
+    pub const fn new_unchecked(secs: i64, nanos: i32) -> (r: SignedDuration)
     requires
-        self.rwf(),
+        -999_999_999 <= nanos <= 999_999_999,
     ensures
-        r.ptr.a() == self.ptr.a(),
+        r.secs == secs, r.nanos == nanos,
 {
-            proof {
-                let a = self.ptr.a();
-                if a & 7usize == 4 {
-                    let base = choose|base: usize| base % 8 == 0 && #[trigger] is_live_arc::<TzifOwned>(base) && a == base + 4;
-                    lemma_untag(base, 4, a);
-                }
-                if a & 7usize == 5 {
-                    let base = choose|base: usize| base % 8 == 0 && #[trigger] is_live_arc::<PosixTimeZoneOwned>(base) && a == base + 5;
-                    lemma_untag(base, 5, a);
-                }
-            }
-
-            
-            
-            match self.tag() {
-                
-                Repr::UTC
-                | Repr::UNKNOWN
-                | Repr::FIXED
-                | Repr::STATIC_TZIF => Repr { ptr: self.ptr },
-                
-                Repr::ARC_TZIF => {
-                    let ptr = self.ptr.map_addr(|addr: usize| -> (r: usize) ensures r == addr & !Repr::BITS { addr & !Repr::BITS });
-                    
-                    
-                    
-                    
-                    
-                    {
-                        Arc::increment_strong_count(ptr.cast::<TzifOwned>());
-                    }
-                    Repr { ptr: self.ptr }
-                }
-                
-                Repr::ARC_POSIX => {
-                    let ptr = self.ptr.map_addr(|addr: usize| -> (r: usize) ensures r == addr & !Repr::BITS { addr & !Repr::BITS });
-                    
-                    
-                    
-                    
-                    
-                    {
-                        Arc::increment_strong_count(
-                            ptr.cast::<PosixTimeZoneOwned>(),
-                        );
-                    }
-                    Repr { ptr: self.ptr }
-                }
-                _ => {
-                    { let verif_da: bool = false; assert(verif_da); };
-                    
-                    
-                    {
-                        return vstd::pervasive::unreached();
-                    }
-                }
-            }
-        }
+        { let verif_da: bool = nanos <= 999_999_999; assert(verif_da); };
+        { let verif_da: bool = nanos >= -999_999_999; assert(verif_da); };
+        SignedDuration { secs, nanos }
+    }
 }
 
-impl Repr {
-// @fn <Repr as Drop>::drop @src src/tz/timezone.rs:2334
+impl SignedDuration {
+// @fn SignedDuration::as_secs @src src/signed_duration.rs:724
 #[verifier::spinoff_prover]
 
-        pub fn drop(&mut self)
-    requires
-        old(self).rwf(),
+    pub const fn as_secs(&self) -> (r: i64)
+    ensures
+        r == self.secs,
 {
-            proof {
-                let a = self.ptr.a();
-                if a & 7usize == 4 {
-                    let base = choose|base: usize| base % 8 == 0 && #[trigger] is_live_arc::<TzifOwned>(base) && a == base + 4;
-                    lemma_untag(base, 4, a);
-                }
-                if a & 7usize == 5 {
-                    let base = choose|base: usize| base % 8 == 0 && #[trigger] is_live_arc::<PosixTimeZoneOwned>(base) && a == base + 5;
-                    lemma_untag(base, 5, a);
-                }
-            }
+        self.secs
+    }
+}
 
-            
-            
-            match self.tag() {
-                
-                Repr::UTC
-                | Repr::UNKNOWN
-                | Repr::FIXED
-                | Repr::STATIC_TZIF => {}
-                
-                Repr::ARC_TZIF => {
-                    let ptr = self.ptr.map_addr(|addr: usize| -> (r: usize) ensures r == addr & !Repr::BITS { addr & !Repr::BITS });
-                    
-                    
-                    
-                    
-                    
-                    {
-                        Arc::decrement_strong_count(ptr.cast::<TzifOwned>());
-                    }
-                }
-                
-                Repr::ARC_POSIX => {
-                    let ptr = self.ptr.map_addr(|addr: usize| -> (r: usize) ensures r == addr & !Repr::BITS { addr & !Repr::BITS });
-                    
-                    
-                    
-                    
-                    
-                    {
-                        Arc::decrement_strong_count(
-                            ptr.cast::<PosixTimeZoneOwned>(),
-                        );
-                    }
-                }
-                _ => {
-                    { let verif_da: bool = false; assert(verif_da); };
-                    
-                    
-                    {
-                        return vstd::pervasive::unreached();
-                    }
-                }
+impl SignedDuration {
+// @fn SignedDuration::subsec_nanos @src src/signed_duration.rs:801
+#[verifier::spinoff_prover]
+
+    pub const fn subsec_nanos(&self) -> (r: i32)
+    ensures
+        r == self.nanos,
+{
+        self.nanos
+    }
+}
+
+impl SignedDuration {
+// @fn SignedDuration::from_timestamp @src src/signed_duration.rs:681
+#[verifier::spinoff_prover]
+pub fn from_timestamp(timestamp: Timestamp) -> (r: SignedDuration)
+    requires
+        timestamp.wf(),
+    ensures
+        r.wf(), r.tot() == timestamp.ns(), r.secs == timestamp.second.val, r.nanos == timestamp.nanosecond.val,
+{
+        SignedDuration::new_unchecked(
+            timestamp.as_second(),
+            timestamp.subsec_nanosecond(),
+        )
+    }
+}
+
+impl SignedDuration {
+// @fn SignedDuration::timestamp_until @src src/signed_duration.rs:1837
+#[verifier::spinoff_prover]
+pub fn timestamp_until(
+        timestamp1: Timestamp,
+        timestamp2: Timestamp,
+    ) -> (r: SignedDuration)
+    requires
+        timestamp1.wf(), timestamp2.wf(),
+    ensures
+        r.wf(), r.tot() == timestamp2.ns() - timestamp1.ns(),
+{
+        proof { lemma_of_tot(timestamp2.ns() - timestamp1.ns()); }
+
+        
+        
+        timestamp2.as_duration() - timestamp1.as_duration()
+    }
+}
+
+impl SignedDuration {
+// @fn SignedDuration::time_until @src src/signed_duration.rs:1867
+#[verifier::spinoff_prover]
+pub fn time_until(time1: Time, time2: Time) -> (r: SignedDuration)
+    requires
+        time1.wf(), time2.wf(),
+    ensures
+        r.wf(), r.tot() == time2.nod() - time1.nod(),
+{
+        let nanos = time1.until_nanoseconds(time2);
+        SignedDuration::from_nanos(nanos.get())
+    }
+}
+
+impl SignedDuration {
+// @fn SignedDuration::new_without_nano_overflow @src src/signed_duration.rs:453
+#[verifier::spinoff_prover]
+
+    pub const fn new_without_nano_overflow(
+        secs: i64,
+        nanos: i32,
+    ) -> (r: SignedDuration)
+    requires
+        -999_999_999 <= nanos <= 999_999_999,
+    ensures
+        r.secs == secs, r.nanos == nanos,
+{
+        assert!(nanos <= 999_999_999);
+        assert!(nanos >= -999_999_999);
+        SignedDuration::new_unchecked(secs, nanos)
+    }
+}
+
+impl SignedDuration {
+// @fn SignedDuration::is_negative @src src/signed_duration.rs:1823
+#[verifier::spinoff_prover]
+
+    pub const fn is_negative(&self) -> (r: bool)
+    requires
+        self.wf(),
+    ensures
+        r == (self.tot() < 0),
+{
+        self.secs.is_negative() || self.nanos.is_negative()
+    }
+}
+
+#[derive(Clone, Copy)] pub enum Duration {
+    Span(Span),
+    Signed(SignedDuration),
+    Unsigned(UnsignedDuration),
+}
+
+#[derive(Clone, Copy)] pub enum SDuration {
+    Span(Span),
+    Absolute(SignedDuration),
+}
+
+impl Duration {
+// @fn Duration::to_signed @src src/duration.rs:22
+#[verifier::spinoff_prover]
+
+    pub fn to_signed(self) -> (r: Result<SDuration, Error>)
+    requires
+        dur_wf(self),
+    ensures
+        // only an unsigned duration of more than i64::MAX whole seconds has no signed form (it is further than any two timestamps are apart)
+    r.is_err() <==> self is Unsigned && udur_secs(self->Unsigned_0) > i64::MAX,
+    r.is_ok() ==> sdur_wf(r.unwrap()) && sdur_ns(r.unwrap()) == dur_ns(self) && sdur_addable(r.unwrap()) == dur_addable(self)
+        && (r.unwrap() is Span <==> self is Span) && (self is Span ==> r.unwrap()->Span_0 == self->Span_0),
+{
+        match self {
+            Duration::Span(span) => Ok(SDuration::Span(span)),
+            Duration::Signed(sdur) => Ok(SDuration::Absolute(sdur)),
+            Duration::Unsigned(udur) => {
+                let sdur =
+                    verif_sdur_try_from_udur(udur).verif_with_context()?;
+                Ok(SDuration::Absolute(sdur))
             }
         }
+    }
+}
+
+impl Duration {
+// @fn Duration::checked_neg @src src/duration.rs:59
+#[verifier::spinoff_prover]
+
+    pub fn checked_neg(self) -> (r: Result<Duration, Error>)
+    requires
+        dur_wf(self),
+    ensures
+        r.is_err() <==> self is Unsigned && udur_secs(self->Unsigned_0) > 0x8000_0000_0000_0000,
+    r.is_ok() ==> dur_wf(r.unwrap()) && dur_ns(r.unwrap()) == -dur_ns(self) && dur_addable(r.unwrap()) == dur_addable(self)
+        && (r.unwrap() is Span <==> self is Span) && (self is Span ==> span_view(r.unwrap()->Span_0) == sv_neg(span_view(self->Span_0))),
+{
+        proof { if let Duration::Span(s) = self { lemma_sv_neg(span_view(s)); } }
+
+        match self {
+            Duration::Span(span) => Ok(Duration::Span(span.negate())),
+            Duration::Signed(sdur) => {
+                
+                
+                
+                if let Some(sdur) = sdur.checked_neg() {
+                    Ok(Duration::Signed(sdur))
+                } else {
+                    let udur = UnsignedDuration::new(
+                        i64::MIN.unsigned_abs(),
+                        sdur.subsec_nanos().unsigned_abs(),
+                    );
+                    Ok(Duration::Unsigned(udur))
+                }
+            }
+            Duration::Unsigned(udur) => {
+                
+                
+                
+                let sdur = if udur.as_secs() == i64::MIN.unsigned_abs() {
+                    SignedDuration::new_without_nano_overflow(
+                        i64::MIN,
+                        
+                        -verif_i32_try_from_u32(udur.subsec_nanos()),
+                    )
+                } else {
+                    
+                    
+                    
+                    
+                    
+                    
+                    
+                    -verif_sdur_try_from_udur(udur).verif_with_context()?
+                };
+                Ok(Duration::Signed(sdur))
+            }
+        }
+    }
+}
+
+impl Duration {
+// @fn Duration::is_negative @src src/duration.rs:105
+#[verifier::spinoff_prover]
+
+    pub fn is_negative(&self) -> (r: bool)
+    requires
+        dur_wf(*self),
+    ensures
+        dur_addable(*self) ==> r == (dur_ns(*self) < 0),
+{
+        proof { if let Duration::Span(s) = *self { lemma_inv_bound(span_view(s)); } }
+
+        match *self {
+            Duration::Span(ref span) => span.is_negative(),
+            Duration::Signed(ref sdur) => sdur.is_negative(),
+            Duration::Unsigned(_) => false,
+        }
+    }
+}
+
+#[derive(Clone, Copy)]
+pub struct Timestamp {
+    pub second: UnixSeconds,
+    pub nanosecond: FractionalNanosecond,
+}
+
+impl Timestamp { pub exec const MIN: Timestamp ensures Self::MIN.wf(), Self::MIN.ns() == ts_MIN_ns() { Timestamp {
+        second: verif_UnixSeconds_MIN_SELF(),
+        nanosecond: FractionalNanosecond::verif_N(0),
+    } } }
+
+impl Timestamp { pub exec const MAX: Timestamp ensures Self::MAX.wf(), Self::MAX.ns() == ts_MAX_ns() { Timestamp {
+        second: verif_UnixSeconds_MAX_SELF(),
+        nanosecond: verif_FractionalNanosecond_MAX_SELF(),
+    } } }
+
+impl Timestamp {
+// @fn Timestamp::new @src src/timestamp.rs:492
+#[verifier::spinoff_prover]
+
+    pub fn new(second: i64, nanosecond: i32) -> (r: Result<Timestamp, Error>)
+    ensures
+        r.is_ok() <==> in_UnixSeconds(second as int) && in_FractionalNanosecond(nanosecond as int) && ts_in_range(second * 1_000_000_000 + nanosecond),
+    r.is_ok() ==> r.unwrap().wf() && r.unwrap().ns() == second * 1_000_000_000 + nanosecond,
+{
+        Timestamp::new_ranged(
+            verif_try_new_UnixSeconds(second)?,
+            verif_try_new_FractionalNanosecond(nanosecond as i64)?,
+        )
+    }
+}
+
+impl Timestamp {
+// @fn Timestamp::new_ranged @src src/timestamp.rs:2256
+#[verifier::spinoff_prover]
+
+    pub fn new_ranged(
+        second: UnixSeconds,
+        nanosecond: FractionalNanosecond,
+    ) -> (r: Result<Timestamp, Error>)
+    requires
+        in_UnixSeconds(second.val as int), in_FractionalNanosecond(nanosecond.val as int),
+    ensures
+        r.is_ok() <==> ts_in_range(second.val * 1_000_000_000 + nanosecond.val),
+    r.is_ok() ==> r.unwrap().wf() && r.unwrap().ns() == second.val * 1_000_000_000 + nanosecond.val,
+{
+        if second == verif_UnixSeconds_MIN_SELF() && nanosecond < C(0) {
+            return Err(verif_err());
+        }
+        
+        
+        
+        
+        
+        if second.signum() == nanosecond.signum()
+            || second == C(0)
+            || nanosecond == C(0)
+        {
+            return Ok(Timestamp { second, nanosecond });
+        }
+        let second = second.verif_without_bounds64();
+        let nanosecond = nanosecond.verif_without_bounds64();
+        let (delta_second, delta_nanosecond) = { let (second, nanosecond) = (second, nanosecond); 
+                if second < C(0) && nanosecond > C(0) {
+                    (C(1), (-NANOS_PER_SECOND).rinto())
+                } else if second > C(0) && nanosecond < C(0) {
+                    (C(-1), NANOS_PER_SECOND.rinto())
+                } else {
+                    (C(0), C(0))
+                } };
+        Ok(Timestamp {
+            second: (second + delta_second).rinto(),
+            nanosecond: (nanosecond + delta_nanosecond).rinto(),
+        })
+    }
+}
+
+impl Timestamp {
+// @fn Timestamp::from_duration @src src/timestamp.rs:939
+#[verifier::spinoff_prover]
+
+    pub fn from_duration(
+        duration: SignedDuration,
+    ) -> (r: Result<Timestamp, Error>)
+    requires
+        duration.wf(),
+    ensures
+        r.is_ok() <==> ts_in_range(duration.tot()),
+    r.is_ok() ==> r.unwrap().wf() && r.unwrap().ns() == duration.tot(),
+{
+        
+        
+        
+        
+        
+        let second = verif_try_new_UnixSeconds(duration.as_secs())?;
+        let nanosecond = verif_try_new_FractionalNanosecond(duration.subsec_nanos() as i64)?;
+        
+        
+        
+        if second == verif_UnixSeconds_MIN_SELF() && nanosecond < C(0) {
+            return Err(verif_err());
+        }
+        Ok(Timestamp { second, nanosecond })
+    }
+}
+
+impl Timestamp {
+// @fn Timestamp::as_second @src src/timestamp.rs:989
+#[verifier::spinoff_prover]
+
+    pub fn as_second(self) -> (r: i64)
+    ensures
+        r == self.second.val,
+{
+        self.as_second_ranged().get()
+    }
+}
+
+impl Timestamp {
+// @fn Timestamp::subsec_nanosecond @src src/timestamp.rs:1169
+#[verifier::spinoff_prover]
+
+    pub fn subsec_nanosecond(self) -> (r: i32)
+    ensures
+        r == self.nanosecond.val,
+{
+        self.subsec_nanosecond_ranged().get()
+    }
+}
+
+impl Timestamp {
+// @fn Timestamp::as_duration @src src/timestamp.rs:1196
+#[verifier::spinoff_prover]
+
+    pub fn as_duration(self) -> (r: SignedDuration)
+    requires
+        self.wf(),
+    ensures
+        r.wf(), r.tot() == self.ns(),
+{
+        SignedDuration::from_timestamp(self)
+    }
+}
+
+impl Timestamp {
+// @fn Timestamp::from_second_ranged @src src/timestamp.rs:2300
+#[verifier::spinoff_prover]
+
+    pub fn from_second_ranged(second: UnixSeconds) -> (r: Timestamp)
+    requires
+        in_UnixSeconds(second.val as int),
+    ensures
+        r.wf(), r.ns() == second.val * 1_000_000_000, r.second == second, r.nanosecond.val == 0,
+{
+        Timestamp { second, nanosecond: FractionalNanosecond::verif_N(0) }
+    }
+}
+
+impl Timestamp {
+// @fn Timestamp::from_nanosecond_ranged @src src/timestamp.rs:2325
+#[verifier::spinoff_prover]
+
+    pub fn from_nanosecond_ranged(
+        nanosecond: UnixNanoseconds,
+    ) -> (r: Timestamp)
+    requires
+        in_UnixNanoseconds(nanosecond.val as int),
+    ensures
+        r.wf(), r.ns() == nanosecond.val,
+{
+        proof { lemma_tdiv(nanosecond.val as int, 1_000_000_000); }
+
+        let second =
+            UnixSeconds::rfrom(nanosecond.div_ceil(NANOS_PER_SECOND));
+        let nanosecond = nanosecond.rem_ceil(NANOS_PER_SECOND).rinto();
+        Timestamp { second, nanosecond }
+    }
+}
+
+impl Timestamp {
+// @fn Timestamp::as_second_ranged @src src/timestamp.rs:2374
+#[verifier::spinoff_prover]
+
+    pub fn as_second_ranged(self) -> (r: UnixSeconds)
+    ensures
+        r == self.second,
+{
+        self.second
+    }
+}
+
+impl Timestamp {
+// @fn Timestamp::as_nanosecond_ranged @src src/timestamp.rs:2425
+#[verifier::spinoff_prover]
+
+    pub fn as_nanosecond_ranged(self) -> (r: UnixNanoseconds)
+    requires
+        self.wf(),
+    ensures
+        r.val == self.ns(), in_UnixNanoseconds(r.val as int),
+{
+        let second = NoUnits128::rfrom(self.as_second_ranged());
+        let nanosecond = NoUnits128::rfrom(self.subsec_nanosecond_ranged());
+        
+        
+        
+        
+        
+        let (second, nanosecond) = { let (second, nanosecond) = (second, nanosecond); 
+                if second == verif_UnixSeconds_MIN_SELF() && nanosecond < C(0) {
+                    (second, C(0).rinto())
+                } else {
+                    (second, nanosecond)
+                } };
+        UnixNanoseconds::rfrom(second * NANOS_PER_SECOND + nanosecond)
+    }
+}
+
+impl Timestamp {
+// @fn Timestamp::subsec_nanosecond_ranged @src src/timestamp.rs:2461
+#[verifier::spinoff_prover]
+
+    pub fn subsec_nanosecond_ranged(self) -> (r: FractionalNanosecond)
+    ensures
+        r == self.nanosecond,
+{
+        self.nanosecond
+    }
+}
+
+impl Timestamp {
+// @fn Timestamp::checked_add_duration @src src/timestamp.rs:1538
+#[verifier::spinoff_prover]
+
+    pub fn checked_add_duration(
+        self,
+        duration: SignedDuration,
+    ) -> (r: Result<Timestamp, Error>)
+    requires
+        self.wf(), duration.wf(),
+    ensures
+        r.is_ok() <==> ts_in_range(self.ns() + duration.tot()),
+    r.is_ok() ==> r.unwrap().wf() && r.unwrap().ns() == self.ns() + duration.tot(),
+{
+        let start = self.as_duration();
+        let end = start.checked_add(duration).ok_or_else(|| -> (e: Error) { verif_err() })?;
+        Timestamp::from_duration(end)
+    }
+}
+
+impl Timestamp {
+// @fn Timestamp::checked_add_span @src src/timestamp.rs:1506
+#[verifier::spinoff_prover]
+
+    pub fn checked_add_span(self, span: Span) -> (r: Result<Timestamp, Error>)
+    requires
+        self.wf(), span_wf(span),
+    ensures
+        !span_cal_zero(span) ==> r.is_err(),
+    r.is_ok() <==> span_cal_zero(span) && ts_in_range(self.ns() + span_time_ns(span)),
+    r.is_ok() ==> r.unwrap().wf() && r.unwrap().ns() == self.ns() + span_time_ns(span),
+{
+        proof { lemma_inv_bound(span_view(span)); }
+
+        if let Some(err) = span.smallest_non_time_non_zero_unit_error() {
+            return Err(err);
+        }
+        if span.is_zero() {
+            return Ok(self);
+        }
+        
+        
+        
+        
+        
+        if self.subsec_nanosecond_ranged() == C(0) {
+            if let Some(span_seconds) = span.to_invariant_seconds() {
+                let time_seconds = self.as_second_ranged();
+                let sum = verif_try_checked_add_UnixSeconds(time_seconds, span_seconds)
+                    .verif_with_context()?;
+                return Ok(Timestamp::from_second_ranged(sum));
+            }
+        }
+        let time_nanos = self.as_nanosecond_ranged();
+        let span_nanos = span.to_invariant_nanoseconds();
+        let sum = verif_try_checked_add_UnixNanoseconds(time_nanos, span_nanos)
+            .verif_with_context()?;
+        Ok(Timestamp::from_nanosecond_ranged(sum))
+    }
+}
+
+#[derive(Clone, Copy)] pub struct TimestampArithmetic {
+    pub duration: Duration,
+}
+
+impl TimestampArithmetic {
+// @fn TimestampArithmetic::checked_add @src src/timestamp.rs:3059
+#[verifier::spinoff_prover]
+
+    pub fn checked_add(self, ts: Timestamp) -> (r: Result<Timestamp, Error>)
+    requires
+        dur_wf(self.duration), ts.wf(),
+    ensures
+        r.is_ok() <==> dur_addable(self.duration) && ts_in_range(ts.ns() + dur_ns(self.duration)),
+    r.is_ok() ==> r.unwrap().wf() && r.unwrap().ns() == ts.ns() + dur_ns(self.duration),
+{
+        match self.duration.to_signed()? {
+            SDuration::Span(span) => ts.checked_add_span(span),
+            SDuration::Absolute(sdur) => ts.checked_add_duration(sdur),
+        }
+    }
+}
+
+impl TimestampArithmetic {
+// @fn TimestampArithmetic::saturating_add @src src/timestamp.rs:3067
+#[verifier::spinoff_prover]
+
+    pub fn saturating_add(self, ts: Timestamp) -> (r: Result<Timestamp, Error>)
+    requires
+        dur_wf(self.duration), ts.wf(),
+    ensures
+        r.is_ok() <==> dur_addable(self.duration),
+    r.is_ok() ==> r.unwrap().wf() && r.unwrap().ns() == ts_clamp(ts.ns() + dur_ns(self.duration)),
+{
+        let Ok(signed) = self.duration.to_signed() else {
+            return Ok(Timestamp::MAX);
+        };
+        let result = match signed {
+            SDuration::Span(span) => {
+                if let Some(err) = span.smallest_non_time_non_zero_unit_error()
+                {
+                    return Err(err);
+                }
+                ts.checked_add_span(span)
+            }
+            SDuration::Absolute(sdur) => ts.checked_add_duration(sdur),
+        };
+        Ok(result.unwrap_or_else(|_e: Error| -> (t: Timestamp) ensures t.wf(), t.ns() == (if dur_ns(self.duration) < 0 { ts_MIN_ns() } else { ts_MAX_ns() }) {
+            if self.is_negative() {
+                Timestamp::MIN
+            } else {
+                Timestamp::MAX
+            }
+        }))
+    }
+}
+
+impl TimestampArithmetic {
+// @fn TimestampArithmetic::checked_neg @src src/timestamp.rs:3091
+#[verifier::spinoff_prover]
+
+    pub fn checked_neg(self) -> (r: Result<TimestampArithmetic, Error>)
+    requires
+        dur_wf(self.duration),
+    ensures
+        r.is_err() <==> self.duration is Unsigned && udur_secs(self.duration->Unsigned_0) > 0x8000_0000_0000_0000,
+    r.is_ok() ==> dur_wf(r.unwrap().duration) && dur_ns(r.unwrap().duration) == -dur_ns(self.duration) && dur_addable(r.unwrap().duration) == dur_addable(self.duration),
+{
+        let duration = self.duration.checked_neg()?;
+        Ok(TimestampArithmetic { duration })
+    }
+}
+
+impl TimestampArithmetic {
+// @fn TimestampArithmetic::is_negative @src src/timestamp.rs:3097
+#[verifier::spinoff_prover]
+
+    pub fn is_negative(&self) -> (r: bool)
+    requires
+        dur_wf(self.duration),
+    ensures
+        dur_addable(self.duration) ==> r == (dur_ns(self.duration) < 0),
+{
+        self.duration.is_negative()
+    }
+}
+
+impl Timestamp {
+// @fn Timestamp::checked_add @src src/timestamp.rs:1497
+#[verifier::spinoff_prover]
+
+    pub fn checked_add(
+        self,
+        duration: TimestampArithmetic,
+    ) -> (r: Result<Timestamp, Error>)
+    requires
+        self.wf(), dur_wf(duration.duration),
+    ensures
+        r.is_ok() <==> dur_addable(duration.duration) && ts_in_range(self.ns() + dur_ns(duration.duration)),
+    r.is_ok() ==> r.unwrap().wf() && r.unwrap().ns() == self.ns() + dur_ns(duration.duration),
+{
+        let duration: TimestampArithmetic = duration;
+        duration.checked_add(self)
+    }
+}
+
+impl Timestamp {
+// @fn Timestamp::checked_sub @src src/timestamp.rs:1598
+#[verifier::spinoff_prover]
+
+    pub fn checked_sub(
+        self,
+        duration: TimestampArithmetic,
+    ) -> (r: Result<Timestamp, Error>)
+    requires
+        self.wf(), dur_wf(duration.duration),
+    ensures
+        r.is_ok() <==> dur_addable(duration.duration) && ts_in_range(self.ns() - dur_ns(duration.duration)),
+    r.is_ok() ==> r.unwrap().wf() && r.unwrap().ns() == self.ns() - dur_ns(duration.duration),
+{
+        let duration: TimestampArithmetic = duration;
+        duration.checked_neg().and_then(|ta: TimestampArithmetic| -> (q: Result<Timestamp, Error>) requires dur_wf(ta.duration), self.wf() ensures q.is_ok() <==> dur_addable(ta.duration) && ts_in_range(self.ns() + dur_ns(ta.duration)), q.is_ok() ==> q.unwrap().wf() && q.unwrap().ns() == self.ns() + dur_ns(ta.duration) { ta.checked_add(self) })
+    }
+}
+
+impl Timestamp {
+// @fn Timestamp::saturating_add @src src/timestamp.rs:1646
+#[verifier::spinoff_prover]
+
+    pub fn saturating_add(
+        self,
+        duration: TimestampArithmetic,
+    ) -> (r: Result<Timestamp, Error>)
+    requires
+        self.wf(), dur_wf(duration.duration),
+    ensures
+        r.is_ok() <==> dur_addable(duration.duration),
+    r.is_ok() ==> r.unwrap().wf() && r.unwrap().ns() == ts_clamp(self.ns() + dur_ns(duration.duration)),
+{
+        let duration: TimestampArithmetic = duration;
+        duration.saturating_add(self).verif_with_context()
+    }
+}
+
+impl Timestamp {
+// @fn Timestamp::saturating_sub @src src/timestamp.rs:1695
+#[verifier::spinoff_prover]
+
+    pub fn saturating_sub(
+        self,
+        duration: TimestampArithmetic,
+    ) -> (r: Result<Timestamp, Error>)
+    requires
+        self.wf(), dur_wf(duration.duration),
+    ensures
+        r.is_ok() <==> dur_addable(duration.duration),
+    r.is_ok() ==> r.unwrap().wf() && r.unwrap().ns() == ts_clamp(self.ns() - dur_ns(duration.duration)),
+{
+        let duration: TimestampArithmetic = duration;
+        let Ok(duration) = duration.checked_neg() else {
+            return Ok(Timestamp::MIN);
+        };
+        self.saturating_add(duration)
+    }
+}
+
+impl Timestamp {
+// @fn Timestamp::duration_until @src src/timestamp.rs:1960
+#[verifier::spinoff_prover]
+
+    pub fn duration_until(self, other: Timestamp) -> (r: SignedDuration)
+    requires
+        self.wf(), other.wf(),
+    ensures
+        r.wf(), r.tot() == other.ns() - self.ns(),
+{
+        SignedDuration::timestamp_until(self, other)
+    }
+}
+
+impl Timestamp {
+// @fn Timestamp::duration_since @src src/timestamp.rs:1982
+#[verifier::spinoff_prover]
+
+    pub fn duration_since(self, other: Timestamp) -> (r: SignedDuration)
+    requires
+        self.wf(), other.wf(),
+    ensures
+        r.wf(), r.tot() == self.ns() - other.ns(),
+{
+        SignedDuration::timestamp_until(other, self)
+    }
+}
+
+#[derive(Clone, Copy)] pub struct TimestampDifference {
+    pub timestamp: Timestamp,
+    pub round: SpanRound,
+}
+
+impl TimestampDifference {
+// @fn TimestampDifference::rounding_may_change_span @src src/timestamp.rs:3396
+#[verifier::spinoff_prover]
+
+    pub fn rounding_may_change_span(&self) -> (r: bool)
+    ensures
+        r == self.round.may_round(),
+{
+        self.round.rounding_may_change_span_ignore_largest()
+    }
+}
+
+impl TimestampDifference {
+// @fn TimestampDifference::until_with_largest_unit @src src/timestamp.rs:3404
+#[verifier::spinoff_prover]
+
+    pub fn until_with_largest_unit(&self, t1: Timestamp) -> (res: Result<Span, Error>)
+    requires
+        t1.wf(), self.timestamp.wf(),
+    ensures
+        // Err exactly for a largest unit of Day or above -- and (DEVIATION) for Nanosecond when the distance exceeds the nanoseconds limit of a span.
+    // (The ideal clause `Err only for Day and above` is stated on the public entry points Timestamp::until / Timestamp::since, so that no caller assumes it.)
+    res.is_err() <==> ts_diff_err(self.timestamp.ns() - t1.ns(), ts_largest(self.round)),
+    // the result, exactly: the distance balanced up to the largest unit
+    res.is_ok() ==> span_wf(res.unwrap()) && span_view(res.unwrap()) == bal(self.timestamp.ns() - t1.ns(), unit_rank(ts_largest(self.round))),
+    // C07: reversible, nothing above the largest unit, balanced, one sign
+    res.is_ok() ==> c07_elapsed(span_view(res.unwrap()), self.timestamp.ns() - t1.ns(), unit_rank(ts_largest(self.round))),
+{
+        hide(tdiv); hide(trem); hide(quot); hide(bal); hide(c07_elapsed); hide(balanced_as);
+
+        let t2 = self.timestamp;
+        let largest = self
+            .round
+            .get_largest()
+            .unwrap_or_else(|| -> (u: Unit) ensures u == ts_default_largest(self.round) { verif_unit_max(self.round.get_smallest(), Unit::Second) });
+        if largest >= Unit::Day {
+            return Err(verif_err());
+        }
+        let nano1 = t1.as_nanosecond_ranged().without_bounds();
+        let nano2 = t2.as_nanosecond_ranged().without_bounds();
+        let diff = nano2 - nano1;
+        proof {
+            lemma_ts_wf(t1); lemma_ts_wf(t2);
+            lemma_quot_limits(diff.val as int, unit_rank(largest));
+            lemma_c07(diff.val as int, unit_rank(largest));
+        }
+
+        
+        
+        Span::from_invariant_nanoseconds(largest, diff)
+    }
+}
+
+impl Timestamp {
+// @fn Timestamp::until @src src/timestamp.rs:1822
+#[verifier::spinoff_prover]
+
+    pub fn until(
+        self,
+        other: TimestampDifference,
+    ) -> (res: Result<Span, Error>)
+    requires
+        self.wf(), other.timestamp.wf(),
+    ensures
+        // IDEAL (C07: "s = a.until(largest, b) satisfies ..." for every permitted largest unit): Err exactly for a calendar unit (Day and above).
+    // FAILS on jiff 0.2.8: Timestamp::MIN.until((Unit::Nanosecond, Timestamp::MAX)) is Err -- every pair more than i64::MAX ns (~292.3 years) apart is refused
+    // with largest = Nanosecond, although Microsecond..Hour succeed for all pairs.
+    !other.round.may_round() ==> (res.is_err() <==> unit_rank(ts_largest(other.round)) >= 6),
+        !other.round.may_round() ==> (res.is_err() <==> ts_diff_err(other.timestamp.ns() - self.ns(), ts_largest(other.round))),
+    !other.round.may_round() && res.is_ok() ==> span_wf(res.unwrap()) && span_view(res.unwrap()) == bal(other.timestamp.ns() - self.ns(), unit_rank(ts_largest(other.round))),
+    !other.round.may_round() && res.is_ok() ==> c07_elapsed(span_view(res.unwrap()), other.timestamp.ns() - self.ns(), unit_rank(ts_largest(other.round))),
+{
+        hide(tdiv); hide(trem); hide(quot); hide(bal); hide(c07_elapsed);
+
+        let args: TimestampDifference = other;
+        let span = args.until_with_largest_unit(self)?;
+        if args.rounding_may_change_span() {
+            span.round(args.round)
+        } else {
+            Ok(span)
+        }
+    }
+}
+
+impl Timestamp {
+// @fn Timestamp::since @src src/timestamp.rs:1858
+#[verifier::spinoff_prover]
+
+    pub fn since(
+        self,
+        other: TimestampDifference,
+    ) -> (res: Result<Span, Error>)
+    requires
+        self.wf(), other.timestamp.wf(),
+    ensures
+        // IDEAL (C07: "s = a.until(largest, b) satisfies ..." for every permitted largest unit): Err exactly for a calendar unit (Day and above).
+    // FAILS on jiff 0.2.8: Timestamp::MIN.until((Unit::Nanosecond, Timestamp::MAX)) is Err -- every pair more than i64::MAX ns (~292.3 years) apart is refused
+    // with largest = Nanosecond, although Microsecond..Hour succeed for all pairs.
+    !other.round.may_round() ==> (res.is_err() <==> unit_rank(ts_largest(other.round)) >= 6),
+        !other.round.may_round() ==> (res.is_err() <==> ts_diff_err(other.timestamp.ns() - self.ns(), ts_largest(other.round))),
+    !other.round.may_round() && res.is_ok() ==> span_wf(res.unwrap()) && span_view(res.unwrap()) == sv_neg(bal(other.timestamp.ns() - self.ns(), unit_rank(ts_largest(other.round)))),
+    !other.round.may_round() && res.is_ok() ==> c07_elapsed(span_view(res.unwrap()), self.ns() - other.timestamp.ns(), unit_rank(ts_largest(other.round))),
+{
+        hide(tdiv); hide(trem); hide(quot); hide(bal); hide(c07_elapsed);
+
+        let args: TimestampDifference = other;
+        let span = args.until_with_largest_unit(self)?.negate();
+        proof { lemma_c07_neg(bal(other.timestamp.ns() - self.ns(), unit_rank(ts_largest(other.round))), other.timestamp.ns() - self.ns(), unit_rank(ts_largest(other.round))); }
+
+        if args.rounding_may_change_span() {
+            span.round(args.round)
+        } else {
+            Ok(span)
+        }
+    }
+}
+
+impl Time {
+// @fn Time::until_nanoseconds @src src/civil/time.rs:1758
+#[verifier::spinoff_prover]
+
+    pub fn until_nanoseconds(self, other: Time) -> (r: SpanNanoseconds)
+    requires
+        self.wf(), other.wf(),
+    ensures
+        r.val == other.nod() - self.nod(),
+{
+        let t1 = SpanNanoseconds::rfrom(self.to_nanosecond());
+        let t2 = SpanNanoseconds::rfrom(other.to_nanosecond());
+        t2 - t1
+    }
+}
+
+impl Time {
+// @fn Time::duration_until @src src/civil/time.rs:1393
+#[verifier::spinoff_prover]
+
+    pub fn duration_until(self, other: Time) -> (r: SignedDuration)
+    requires
+        self.wf(), other.wf(),
+    ensures
+        r.wf(), r.tot() == other.nod() - self.nod(),
+{
+        SignedDuration::time_until(self, other)
+    }
+}
+
+impl Time {
+// @fn Time::duration_since @src src/civil/time.rs:1413
+#[verifier::spinoff_prover]
+
+    pub fn duration_since(self, other: Time) -> (r: SignedDuration)
+    requires
+        self.wf(), other.wf(),
+    ensures
+        r.wf(), r.tot() == self.nod() - other.nod(),
+{
+        SignedDuration::time_until(other, self)
+    }
+}
+
+#[derive(Clone, Copy)] pub struct TimeDifference {
+    pub time: Time,
+    pub round: SpanRound,
+}
+
+impl TimeDifference {
+// @fn TimeDifference::rounding_may_change_span @src src/civil/time.rs:2570
+#[verifier::spinoff_prover]
+
+    pub fn rounding_may_change_span(&self) -> (r: bool)
+    ensures
+        r == self.round.may_round(),
+{
+        self.round.rounding_may_change_span_ignore_largest()
+    }
+}
+
+impl TimeDifference {
+// @fn TimeDifference::until_with_largest_unit @src src/civil/time.rs:2578
+#[verifier::spinoff_prover]
+
+    pub fn until_with_largest_unit(&self, t1: Time) -> (res: Result<Span, Error>)
+    requires
+        t1.wf(), self.time.wf(),
+    ensures
+        // Err exactly for a largest unit above Hour -- unless (DEVIATION) the two times are equal: then the zero span is returned whatever the largest unit.
+    // (The ideal clause `Err iff the largest unit is above Hour` is stated on the public entry points Time::until / Time::since, so that no caller assumes it.)
+    res.is_err() <==> unit_rank(time_largest(self.round)) >= 6 && self.time.nod() != t1.nod(),
+    res.is_ok() ==> span_wf(res.unwrap()) && span_view(res.unwrap()) == bal(self.time.nod() - t1.nod(), unit_rank(time_largest(self.round))),
+    res.is_ok() ==> c07_elapsed(span_view(res.unwrap()), self.time.nod() - t1.nod(), unit_rank(time_largest(self.round))),
+{
+        hide(tdiv); hide(trem); hide(quot); hide(bal); hide(c07_elapsed); hide(balanced_as);
+        proof { lemma_bal_zero(unit_rank(time_largest(self.round))); }
+
+        let t2 = self.time;
+        if t1 == t2 {
+            return Ok(Span::new());
+        }
+        let largest = self.round.get_largest().unwrap_or(Unit::Hour);
+        if largest > Unit::Hour {
+            return Err(verif_err());
+        }
+        let start = t1.to_nanosecond();
+        let end = t2.to_nanosecond();
+        proof {
+            let d = end.val - start.val;
+            lemma_quot_limits_day(d, unit_rank(largest));
+            lemma_c07(d, unit_rank(largest));
+        }
+
+        let span =
+            Span::from_invariant_nanoseconds(largest, (end - start).rinto())
+                .expect("difference in civil times is always in bounds");
+        Ok(span)
+    }
+}
+
+impl Time {
+// @fn Time::until @src src/civil/time.rs:1247
+#[verifier::spinoff_prover]
+
+    pub fn until(
+        self,
+        other: TimeDifference,
+    ) -> (res: Result<Span, Error>)
+    requires
+        self.wf(), other.time.wf(),
+    ensures
+        // IDEAL: Err exactly for a largest unit above Hour.
+    // FAILS on jiff 0.2.8: time(0,0,0,0).until((Unit::Day, time(0,0,0,0))) is Ok(zero span): the early return for equal times precedes the check of the largest unit.
+    !other.round.may_round() ==> (res.is_err() <==> unit_rank(time_largest(other.round)) >= 6),
+        !other.round.may_round() ==> (res.is_err() <==> unit_rank(time_largest(other.round)) >= 6 && other.time.nod() != self.nod()),
+    !other.round.may_round() && res.is_ok() ==> span_wf(res.unwrap()) && span_view(res.unwrap()) == bal(other.time.nod() - self.nod(), unit_rank(time_largest(other.round))),
+    !other.round.may_round() && res.is_ok() ==> c07_elapsed(span_view(res.unwrap()), other.time.nod() - self.nod(), unit_rank(time_largest(other.round))),
+{
+        hide(tdiv); hide(trem); hide(quot); hide(bal); hide(c07_elapsed);
+
+        let args: TimeDifference = other;
+        let span = args.until_with_largest_unit(self)?;
+        if args.rounding_may_change_span() {
+            span.round(args.round)
+        } else {
+            Ok(span)
+        }
+    }
+}
+
+impl Time {
+// @fn Time::since @src src/civil/time.rs:1281
+#[verifier::spinoff_prover]
+
+    pub fn since(
+        self,
+        other: TimeDifference,
+    ) -> (res: Result<Span, Error>)
+    requires
+        self.wf(), other.time.wf(),
+    ensures
+        // IDEAL: Err exactly for a largest unit above Hour.
+    // FAILS on jiff 0.2.8: time(0,0,0,0).until((Unit::Day, time(0,0,0,0))) is Ok(zero span): the early return for equal times precedes the check of the largest unit.
+    !other.round.may_round() ==> (res.is_err() <==> unit_rank(time_largest(other.round)) >= 6),
+        !other.round.may_round() ==> (res.is_err() <==> unit_rank(time_largest(other.round)) >= 6 && other.time.nod() != self.nod()),
+    !other.round.may_round() && res.is_ok() ==> span_wf(res.unwrap()) && span_view(res.unwrap()) == sv_neg(bal(other.time.nod() - self.nod(), unit_rank(time_largest(other.round)))),
+    !other.round.may_round() && res.is_ok() ==> c07_elapsed(span_view(res.unwrap()), self.nod() - other.time.nod(), unit_rank(time_largest(other.round))),
+{
+        hide(tdiv); hide(trem); hide(quot); hide(bal); hide(c07_elapsed);
+
+        let args: TimeDifference = other;
+        let span = args.until_with_largest_unit(self)?.negate();
+        proof { lemma_c07_neg(bal(other.time.nod() - self.nod(), unit_rank(time_largest(other.round))), other.time.nod() - self.nod(), unit_rank(time_largest(other.round))); }
+
+        if args.rounding_may_change_span() {
+            span.round(args.round)
+        } else {
+            Ok(span)
+        }
+    }
 }
 
 // ==== end extracted ====
